@@ -86,6 +86,25 @@ def deviations(data, k_subst=B):
     return out
 
 
+def deviations2(data):
+    """Every pair of single-byte substitutions / a substitution followed by a truncation (deviation bound 2)."""
+    out = []
+    n = len(data)
+    subs = (0x00, 0x01, 0xFE, 0xFF)
+    for i in range(n):
+        for a in subs:
+            if data[i] == a:
+                continue
+            one = data[:i] + bytes((a,)) + data[i + 1 :]
+            for j in range(i + 1, n):
+                for b in subs:
+                    if one[j] != b:
+                        out.append(one[:j] + bytes((b,)) + one[j + 1 :])
+            for cut in range(i + 1, n):
+                out.append(one[:cut])
+    return out
+
+
 def compare(ld, ad, env, data, chunked, offset):
     """-> description or None"""
     p = ld.program
@@ -168,6 +187,12 @@ class Judge:
                 cases.append((d, False, 0))
                 if 0xFF in d:
                     cases.append((d, True, 0))
+            if tier != "quick" and info.ident.count(";") <= 1 and "[" not in info.ident and len(exp[1]) <= 7:
+                for d in deviations2(exp[1]):
+                    cases.append((d, False, 0))
+                    if 0xFF in d:
+                        cases.append((d, True, 0))
+                ctx.counts["two_deviation_bases"] += 1
         ctx.counts["valid_serializations"] += nser
         for data, chunked, offset in cases:
             what = compare(ld, ad, env, data, chunked, offset)
@@ -193,13 +218,14 @@ def run(tier, seed):
         "programs": counts["programs"],
         "valid_serializations_deviated": counts["valid_serializations"],
         "skipped_unspecified": counts["skipped_unspecified"],
+        "two_deviation_bases": counts["two_deviation_bases"],
         "not_loadable": counts["not_loadable"],
         "violations_total": counts["violations_total"],
         "short_string_alphabet": [hex(b) for b in B],
         "exhaustive": True,
         "rule": "per valid program: every byte string over B up to length 2/3 (and over the 5-symbol reduction up to 3/4) "
         "under entry modes/offsets, plus every prefix, single substitution, single insertion and 1-2 byte suffix of up to "
-        "3/8 valid serializations; each (program, bytes, mode, offset) is one distinct case (non-trivial = all but the "
+        "3/8 valid serializations (thorough: also every pair of substitutions and substitution+truncation - deviation bound 2 - for bodies of at most two items); each (program, bytes, mode, offset) is one distinct case (non-trivial = all but the "
         "empty string per program); compared with M10: value tree incl. nested byte_size, final position, mode, "
         "ValueError exactly where M10 raises it, termination within 3,000,000 reader calls",
         "samples": samples[:3],
